@@ -230,7 +230,11 @@ func (cache *headersCache) getHeadersAndHashesByNonceAndShardId(nonce uint64, sh
 }
 
 func (cache *headersCache) keys(shardId uint32) []uint64 {
-	shardMap := cache.getShardMap(shardId)
+	// plain lookup: this is reached under the read lock, so it must not create the per-shard map
+	shardMap, ok := cache.headersNonceCache[shardId]
+	if !ok {
+		return make([]uint64, 0)
+	}
 
 	return shardMap.keys()
 }
